@@ -157,13 +157,42 @@ def gen_bound_scenario(rng, i):
     steps = [rng.choice(["v.append(%d)" % rng.randint(0, 9), "v[0] += %d" % rng.randint(1, 3), "v.insert(0, %d)" % rng.randint(0, 9), "v[-1] -= 1", "pass"]) for _ in range(n)]
     after = rng.choice(["v.clear()", "v.append(99)", "v[0] = -50", "pass"])
     old = rng.choice([None, [0], [9, 9, 9, 9], start])
+    # the compared object is the list itself or an (immutable) tuple holding it
+    wrap, wold = rng.choice([("v", lambda o: o), ("v", lambda o: o), ("(v, 7)", lambda o: (o, 7)), ("(0, v)", lambda o: (0, o))])
+    old = None if old is None else wold(old)
     flags = tuple(rng.choice(__import__("vh.proggen", fromlist=["x"]).flag_subsets()))
-    body = [f"    v = {start!r}", f"    s = snapshot({'' if old is None else repr(old)})", f"    for k in range({n}):", "        LOG.append(copy.deepcopy(v))",
-            f"        R.append(v {sym} s)"]
+    body = [f"    v = {start!r}", f"    s = snapshot({'' if old is None else repr(old)})", f"    for k in range({n}):", f"        LOG.append(copy.deepcopy({wrap}))",
+            f"        R.append({wrap} {sym} s)"]
     body += [f"        if k == {j}:\n            {st}" for j, st in enumerate(steps)]
     body += [f"    {after}"]
     src = SC_HDR + "R = []\n\n\ndef test_a():\n" + "\n".join(body) + "\n"
     return {"kind": "bound", "sym": sym, "old": old, "flags": flags, "source": src}
+
+
+def gen_poset_scenario(rng, i):
+    """a <= / >= snapshot over a PARTIAL order (sets, subset relation): one value, compared 1-3 times; the previous bound is missing, equal,
+    a proper superset / subset, or not comparable with it"""
+    sym = "<=" if i % 2 == 0 else ">="
+    x = set(rng.sample(range(6), rng.randint(0, 3)))
+    rel = rng.choice(["none", "equal", "slack", "violated", "incomparable", "incomparable"])
+    if rel == "none":
+        old = None
+    elif rel == "equal":
+        old = set(x)
+    elif rel == "incomparable":
+        old = (set(list(x)[1:]) if x else set()) | {9}
+        if not x:
+            old = {9}                          # the empty set is comparable with everything: a violated / slack bound instead
+    elif (rel == "slack") == (sym == "<="):
+        old = x | {7, 8}                      # proper superset
+    else:
+        old = set(list(x)[:-1]) if x else {7}   # proper subset (or, for the empty set, something else)
+    typ = rng.choice(["set", "frozenset"])
+    lit = (lambda v: repr(v) if v else "set()") if typ == "set" else (lambda v: f"frozenset({v!r})" if v else "frozenset()")
+    flags = tuple(rng.choice(__import__("vh.proggen", fromlist=["x"]).flag_subsets()))
+    body = [f"    x = {lit(x)}", f"    s = snapshot({'' if old is None else lit(old)})", f"    for k in range({rng.randint(1, 3)}):", "        LOG.append(x)", f"        R.append(x {sym} s)"]
+    src = SC_HDR + "R = []\n\n\ndef test_a():\n" + "\n".join(body) + "\n"
+    return {"kind": "poset", "sym": sym, "old": old, "x": x, "flags": flags, "source": src}
 
 
 def gen_access_scenario(rng, i):
@@ -230,6 +259,24 @@ def judge_scenario(sc, o):
         if val != want:
             return f"bound after the run is {val}, documented meaning gives {want} (values at comparison time {log}, previous bound {old}, approved {sorted(F)})"
         return None
+    if sc["kind"] == "poset":
+        x, old = set(sc["x"]), sc["old"]
+        holds = None if old is None else ((x <= old) if sc["sym"] == "<=" else (x >= old))
+        if old is None:
+            want_cat, want = "create", (x if "create" in F else None)
+        elif not holds:
+            want_cat, want = "fix", (x if "fix" in F else old)
+        elif old != x:
+            want_cat, want = "trim", (x if "trim" in F else old)
+        else:
+            want_cat, want = None, old
+        if want_cat and want_cat not in rep:
+            return f"{want_cat} is pending (set {x} {sc['sym']} bound {old}: comparison {'holds' if holds else 'fails'}) but reported categories are {sorted(rep)}"
+        if (rep - {"update"}) - ({want_cat} if want_cat else set()):
+            return f"categories {sorted(rep)} reported, documented meaning gives {want_cat} (set {x} {sc['sym']} bound {old}: comparison {'holds' if holds else 'fails'})"
+        if (None if val is None else set(val)) != want:
+            return f"bound after the run is {val}, documented meaning gives {want} (set {x} {sc['sym']} previous bound {old}, approved {sorted(F)})"
+        return None
     # access
     old, roles = sc["old"], sc["roles"]
     untouched = [k for k in old if roles[k] == "untouched"]
@@ -257,8 +304,8 @@ def run(ctx: Ctx):
         "single call sites: previous source (none / atom / list / nested dict, leaves canonical or hand-written) x 0-5 comparisons of one operation kind "
         "(occasionally a foreign one) x subset of approved categories; executed by the real code in-process; observed results, counters, reported categories and the "
         "value of the rewritten argument are compared with Model/SnapOps.v inside Coq and checked against the documented category semantics; "
-        "B (oracle only): bounds compared several times with a mutable value that is mutated between and after the comparisons (the meaning refers to the values at "
-        "comparison time), and dict sub-snapshots whose keys are compared, only accessed, or untouched (trim removes exactly the never-accessed keys); "
+        "B (oracle only): bounds compared several times with a mutable value - a list, or a tuple holding it - that is mutated between and after the comparisons (the meaning refers to the values at "
+        "comparison time), bounds over a partial order (sets: missing / equal / slack / violated / not comparable), and dict sub-snapshots whose keys are compared, only accessed, or untouched (trim removes exactly the never-accessed keys); "
         "distinct = (source, flags, ops); non-trivial = >= 2 operations or container-valued snapshot")
     proof_step(ctx)
     n = 1500 if not ctx.thorough else 15000
@@ -290,7 +337,7 @@ def run(ctx: Ctx):
     # B
     from ..core import pmap
     ms = 200 if not ctx.thorough else 2000
-    scs = [(gen_bound_scenario if i % 2 == 0 else gen_access_scenario)(ctx.rng, i // 2) for i in range(ms)]
+    scs = [(gen_bound_scenario, gen_access_scenario, gen_bound_scenario, gen_poset_scenario)[i % 4](ctx.rng, i // 4) for i in range(ms)]
     for sc, o in zip(scs, pmap(run_scenario, scs, chunksize=8)):
         ctx.count(("scenario", sc["source"], sc["flags"]), True)
         ctx.dist("B.scenario=" + sc["kind"])
